@@ -112,8 +112,10 @@ class St:
 class AdnlWorld(HistoryWorld):
     name = 'ADNL'
     chunk = 10
-    legs = {'quick': [('channel', 6000), ('sign', 1600), ('mnemonic', 160), ('scripted', 256)],
-            'thorough': [('channel', 200000), ('sign', 40000), ('mnemonic', 6000), ('scripted', 256)]}
+    legs = {'quick': [('channel', 6000), ('sign', 1600), ('mnemonic', 160), ('scripted', 256), ('drought', 16)],
+            'thorough': [('channel', 200000), ('sign', 40000), ('mnemonic', 6000), ('scripted', 256), ('drought', 48)]}
+    DROUGHTS = [257, 1025, 2049, 4097, 513, 2050, 8200, 1000, 3000, 5000, 300, 1500, 2500, 6000, 10001, 700]
+    DROUGHTS_THOROUGH = [16385, 20000, 32769, 50000, 65537, 70000]
     budget = {'quick': 100, 'thorough': 1500}
     real_code = ['pytoniq_core.crypto.ciphers (Client, Server, AdnlChannel.encrypt/decrypt, get_shared_key, get_signature, key/iv derivation) on BOTH ends of every channel',
                  'pytoniq_core.crypto.signature (verify_sign, sign_message)', 'pytoniq_core.crypto.keys (mnemonic_new, mnemonic_is_valid, mnemonic_to_wallet_key, mnemonic_to_private_key, get_secure_random_number)']
@@ -151,6 +153,9 @@ class AdnlWorld(HistoryWorld):
             return {'entropy_seed': rng.getrandbits(64), 'entropy_mode': rng.choice(['uniform', 'uniform', 'zeros', 'ones', 'low', 'same']), 'steps': rng.choice([2, 4, 8])}
         if leg == 'scripted':
             return {'first': run_index * 64, 'count': 64, 'steps': 64}
+        if leg == 'drought':
+            ks = self.DROUGHTS + (self.DROUGHTS_THOROUGH if self.tier == 'thorough' else [])
+            return {'k': ks[run_index % len(ks)] + (run_index // len(ks)), 'seed': rng.getrandbits(32), 'phrase': rng.getrandbits(20), 'steps': 1}
         return {'steps': rng.choice([3, 5, 8]), 'fresh': self.tier == 'thorough' and rng.random() < 0.08}
 
     def V(self, ctx, invariant, opkind, klass, msg):
@@ -239,6 +244,8 @@ class AdnlWorld(HistoryWorld):
                 st.queue.append({'op': 'sign', 'key': rng.randrange(3), 'route': rng.choice(['client', 'get_signature', 'sign_message', 'sign_message_enc']),
                                  'enc': rng.choice(['hex', 'base16', 'base32', 'base64', 'urlsafe-base64', 'raw']),
                                  'msg': bytes(rng.getrandbits(8) for _ in range(n)).hex(), 'alt_seed': rng.getrandbits(32)})
+        elif st.leg == 'drought':
+            st.queue.append({'op': 'drought', 'k': ctx.cfg['k'], 'seed': ctx.cfg['seed'], 'phrase': ctx.cfg['phrase']})
         elif st.leg == 'scripted':
             # the entropy source happens to deliver exactly the bytes that spell a valid phrase (pinned corpus of phrases found by
             # the reference rule): mnemonic_new returns at its first candidate, so thousands of generated phrases cost milliseconds each
@@ -595,6 +602,55 @@ class AdnlWorld(HistoryWorld):
         if not (ok and v is True):
             # a phrase that IS valid by the TON rule, and that mnemonic_new can therefore return, is refused
             self.V(ctx, 'validity-differs-from-rule', 'mnemonic_is_valid', 'valid-phrase', 'mnemonic_is_valid = %r for the valid phrase %s' % (v, ' '.join(phrase)))
+
+    def op_drought(self, st, op, ctx):
+        """A dry spell of the entropy source: k candidate phrases in a row that (almost surely) are not basic seeds - for honest
+        randomness a run of k failures has probability (255/256)^k, so every length occurs in the field - followed by the bytes that
+        spell a valid phrase.  Whatever the length of the spell, what mnemonic_new finally returns must be valid."""
+        corpus = _corpus()
+        if not corpus:
+            return
+        idx = corpus[op['phrase'] % len(corpus)]
+        dr = random.Random(op['seed'])
+        fallback = EntropySeam(op['seed'], 'uniform')
+        state = {'left': op['k'], 'cand': [], 'script': list(idx), 'calls': 0}
+
+        def next_invalid():
+            # one random candidate in 256 is valid by chance: those are passed over, so that the spell really is k candidates long
+            while True:
+                c = [dr.getrandbits(11) for _ in range(24)]
+                if not refmn.is_basic_seed_ref([refmn.WORDS[i] for i in c]):
+                    return c
+
+        def urandom(n=32):
+            state['calls'] += 1
+            if n >= 2 and not state['cand'] and state['left'] > 0:
+                state['left'] -= 1
+                state['cand'] = next_invalid()
+            if n >= 2 and state['cand']:
+                i = state['cand'].pop(0)
+            elif n >= 2 and state['script']:
+                i = state['script'].pop(0)
+            else:
+                return fallback(n)
+            return bytes([i >> 8 | (dr.getrandbits(5) << 3), i & 0xff]) + bytes(n - 2)
+        with patched(lk, 'os', types.SimpleNamespace(urandom=urandom)):
+            ok, words = call(lk.mnemonic_new)
+        ctx.fault('entropy-dry-spell')
+        ctx.evaluated(1)
+        tried = state['calls'] // 24
+        ctx.probe('candidates-rejected-in-a-row/%s' % ('<1000' if tried < 1000 else '<2100' if tried < 2100 else '<4200' if tried < 4200 else '<10000' if tried < 10000 else '>=10000'))
+        if not ok:
+            self.V(ctx, 'mnemonic-new-fails', 'mnemonic_new', 'dry-spell', 'mnemonic_new raised %r after %d candidates' % (words, tried))
+            return
+        if not isinstance(words, list) or len(words) != 24 or any(w not in _WORDSET for w in words):
+            self.V(ctx, 'mnemonic-shape', 'mnemonic_new', 'dry-spell', 'mnemonic_new returned %r' % (words,))
+            return
+        okv, v = call(lk.mnemonic_is_valid, list(words))
+        if not (okv and v is True) or not refmn.is_basic_seed_ref(words):
+            self.V(ctx, 'generated-mnemonic-invalid', 'mnemonic_new', 'dry-spell',
+                   'after %d rejected candidates mnemonic_new returned a phrase that is not valid (mnemonic_is_valid = %r, reference rule = %r): %s'
+                   % (tried - 1, v, refmn.is_basic_seed_ref(words), ' '.join(words)))
 
     def op_validate(self, st, op, ctx):
         if not st.mn:
